@@ -34,7 +34,8 @@ CONCURRENT = [e for e in ENTRIES if any(k in e for k in ("Concurrent", "Mix", "D
 NAMES = ["ra", "rb", "rc", "rd", "re", "rf", "rg", "rh", "ri", "rj"]
 SALS = [9, 7, 7, 5, 3, 0, 0, -2, -5]
 KIND_FLAGS = {"plain": (False, False), "ret": (False, True), "bare": (False, True),
-              "fail": (True, False), "retfail": (True, False)}
+              "fail": (True, False), "retfail": (True, False),
+              "panic1": (True, False), "panic2": (True, False), "loop": (True, False)}
 
 
 def mk_rules(rng, k, kinds=("plain", "ret", "fail"), weights=(3, 3, 2), stop_p=0.0, distinct_sal=False):
